@@ -189,6 +189,10 @@ def sec_init(rep):
 
     rep.cases += 1
     rep.check("C10/__init__/post(mu, rho, xi, shifted kinematics)", case, sy, pre, sides=True)
+    # float companion: the Nachtmann variable keeps its digits for tiny target masses, at small x and
+    # large Q2 (xi -> x continuously), where an algebraically equal form such as (rho-1)/(2 x mu) does not
+    envs = [dict(x=0.3, Q2=10.0, M2target=0.88), dict(x=0.3, Q2=10.0, M2target=1e-10), dict(x=1e-5, Q2=1e4, M2target=0.88), dict(x=1e-4, Q2=1e5, M2target=0.88), dict(x=0.9, Q2=2.0, M2target=0.88), dict(x=0.5, Q2=10.0, M2target=1e-16)]
+    rep.float_companion("C10/__init__", case, sy, pre, envs, rtol=1e-12, only=("mu", "rho", "xi", "shifted-x"))
 
 
 def sec_formulas(rep):
